@@ -7,6 +7,9 @@
 //!   vxreplay relex                   bounded stand-in: every payload-free token kind (+ sample payloads)
 //!                                    re-lexes from its canonical spelling to itself with width == len
 //!   vxreplay pipeline <file> <0|1>   mamba_to_python with annotate off/on; prints OK/ERR + text
+//!   vxreplay transpile <dir> <src|-> <target|->  transpile_dir(<dir>, src, target); prints OK|<out dir> or ERR|<n> (+ MSG| lines)
+//!   vxreplay project <dir>            mamba_to_python on ALL *.mamba files of <dir> (sorted by name, path src/<name>) in ONE
+//!                                     call; prints OK|<n> or ERR|<n> and one MSG|<escaped text> line per diagnostic
 //!   vxreplay caret <op> <a> <b> <c>  CaretPos arithmetic on concrete integers (Kani counterexamples)
 use std::env;
 use std::fs;
@@ -248,6 +251,46 @@ fn cmd_pipeline(path: &str, annotate: bool) -> i32 {
     0
 }
 
+fn cmd_project(dir: &str) -> i32 {
+    let mut names: Vec<String> = fs::read_dir(dir)
+        .expect("read_dir")
+        .filter_map(|e| e.ok())
+        .map(|e| e.file_name().to_string_lossy().to_string())
+        .filter(|n| n.ends_with(".mamba"))
+        .collect();
+    names.sort();
+    let pairs: Vec<(String, Option<PathBuf>)> = names
+        .iter()
+        .map(|n| (fs::read_to_string(PathBuf::from(dir).join(n)).expect("read"), Some(PathBuf::from("src").join(n))))
+        .collect();
+    let args = PipelineArguments { annotate: false };
+    match mamba_to_python(&pairs, &PathBuf::from(""), &args) {
+        Ok(v) => println!("OK|{}", v.len()),
+        Err(v) => {
+            println!("ERR|{}", v.len());
+            for x in v {
+                println!("MSG|{}", esc(&x));
+            }
+        }
+    }
+    0
+}
+
+fn cmd_transpile(dir: &str, src: &str, target: &str) -> i32 {
+    let src = if src == "-" { None } else { Some(src) };
+    let target = if target == "-" { None } else { Some(target) };
+    match mamba::transpile_dir(std::path::Path::new(dir), src, target, &mamba::Arguments { annotate: false }) {
+        Ok(p) => println!("OK|{}", p.display()),
+        Err(v) => {
+            println!("ERR|{}", v.len());
+            for x in v {
+                println!("MSG|{}", esc(&x));
+            }
+        }
+    }
+    0
+}
+
 fn cmd_caret(op: &str, v: &[usize]) -> i32 {
     let (a, b, c) = (v[0], v[1], *v.get(2).unwrap_or(&0));
     if op == "union" {
@@ -283,6 +326,8 @@ fn main() {
         Some("relex") => cmd_relex(),
         Some("spansdir") => cmd_spansdir(&a[2]),
         Some("pipeline") => cmd_pipeline(&a[2], a.get(3).map_or(false, |x| x == "1")),
+        Some("project") => cmd_project(&a[2]),
+        Some("transpile") => cmd_transpile(&a[2], &a[3], &a[4]),
         Some("caret") => {
             let v: Vec<usize> = a[3..].iter().map(|x| x.parse().unwrap()).collect();
             cmd_caret(&a[2], &v)
